@@ -89,7 +89,7 @@ func verifRefParse(data []byte) (fields []verifField, wellFormed bool) {
 
 func verifC13Y2Bound() int {
 	if vnd.Thorough() {
-		return 7
+		return 6
 	}
 	return 5
 }
@@ -97,7 +97,7 @@ func verifC13Y2Bound() int {
 var verifVisitorError = status.Error(codes.DataLoss, "verif: visitor gave up")
 
 // Verif_C13_Y2_FramingParser: VisitProtoBytesFields on arbitrary input of up to
-// 5 (thorough: 7) symbolic bytes. No panic; every (number, offset, size) handed to
+// 5 (thorough: 6) symbolic bytes. No panic; every (number, offset, size) handed to
 // the visitor is the next field of the reference framing; whatever the visitor
 // reads through the field reader is the input at [offset, offset+size); success
 // iff the input is well formed (then the fields tile the input); malformed
